@@ -26,6 +26,8 @@ import (
 
 var mac = net.HardwareAddr{2, 0, 0, 0, 0, 7}
 var mac2 = net.HardwareAddr{2, 0, 0, 0, 0, 0x2a} // configured with WithHWAddr on top of the interface's address
+var mac8 = net.HardwareAddr{2, 0, 0, 0xff, 0xfe, 0, 0, 0x2b}                               // EUI-64
+var mac16 = net.HardwareAddr{0x80, 0, 0, 0x48, 0xfe, 0x80, 0, 0, 0, 0, 0, 0, 2, 0, 0, 0x2c} // as long as chaddr can hold
 var sidIP = map[string]net.IP{"A": net.IPv4(10, 0, 0, 1).To4(), "B": net.IPv4(10, 0, 0, 2).To4()}
 
 type reply struct {
@@ -136,6 +138,10 @@ func (c *rconn) build(r reply, req []byte, n int) []byte {
 				p.ClientHWAddr = net.HardwareAddr{} // no hardware address at all (hlen 0)
 			case 4:
 				p.ClientHWAddr = append(append(net.HardwareAddr{}, q.ClientHWAddr...), 0, 0) // the client's address with two more bytes
+				if len(p.ClientHWAddr) > 16 {                                                // (the field holds 16: a longer one would be cut back to the client's own)
+					p.ClientHWAddr = append(net.HardwareAddr{}, q.ClientHWAddr...)
+					p.ClientHWAddr[len(p.ClientHWAddr)-1] ^= 0x40
+				}
 			default:
 				if n%12 == 5 {
 					return []byte{} // a zero-length datagram
@@ -266,7 +272,20 @@ func logChoice(script [][]reply) int {
 
 // cfgChoice derives the client's configuration options from the script (a replay makes the same choice): the
 // exchange rules hold whatever address the client is told to send to and whatever hardware address it is given
-func cfgChoice(script [][]reply) int { return logChoice(append(script, []reply{{T: "cfg"}})) + 4*logChoice(append(script, []reply{{T: "c"}, {T: "f"}})) }
+func cfgChoice(script [][]reply) int {
+	h := 11
+	for _, rs := range script {
+		h = h*37 + len(rs) + 1
+		for _, r := range rs {
+			h = h*37 + 3*r.A + 5*len(r.T) + 7*len(r.Sid)
+			if r.Ok {
+				h++
+			}
+		}
+		h &= 0xfffffff
+	}
+	return (h ^ h>>7 ^ h>>13) & 0x3ff
+}
 
 func run4(c struct {
 	Tries  int       `json:"tries"`
@@ -286,9 +305,16 @@ func run4(c struct {
 		opts4 = append(opts4, nclient4.WithServerAddr(&net.UDPAddr{IP: net.IPv4(10, 0, 0, 2), Port: 6767}))
 		srv = "10.0.0.2:6767"
 	}
-	if ch/4%2 == 1 {
-		opts4 = append(opts4, nclient4.WithHWAddr(mac2))
+	switch ch / 4 % 4 { // the hardware address the client is given: the interface's, another one, longer ones
+	case 1:
 		hw = mac2
+	case 2:
+		hw = mac8
+	case 3:
+		hw = mac16
+	}
+	if ch/4%4 != 0 {
+		opts4 = append(opts4, nclient4.WithHWAddr(hw))
 	}
 	switch logChoice(c.Script) { // any logging configuration
 	case 1:
@@ -368,6 +394,12 @@ func run4(c struct {
 		rr["ackpkt"] = proj4(lease.ACK)
 		out["renew"] = rr
 		ntx = len(conn.txs)
+		// the lease is given back later (or much later, long after it has run out), and not necessarily as the value
+		// Request returned: an application may keep offer and ACK and build the Lease itself
+		time.Sleep([]time.Duration{0, time.Hour, 25 * time.Hour, 400 * 24 * time.Hour}[ch/16%4])
+		if ch/64%2 == 1 {
+			lease = &nclient4.Lease{Offer: lease.Offer, ACK: lease.ACK}
+		}
 		relErr := cl.Release(lease, userMods...)
 		rl := map[string]any{"ok": relErr == nil, "ackpkt": proj4(lease.ACK)}
 		ltx := []any{}
